@@ -7,6 +7,7 @@ import (
 	"encoding/base64"
 	"encoding/json"
 	"fmt"
+	"os"
 	"path/filepath"
 	"strings"
 	"sync"
@@ -169,9 +170,33 @@ func C20(c *core.Ctx) {
 		fail := func(sig, detail string) {
 			c.Report(core.Finding{Sig: sig, Detail: detail + " — scenario " + key, Replay: map[string]interface{}{"document": doc, "env": env, "ops": ops, "format": format, "withSecretContent": withContent}})
 		}
-		p, err := loader.LoadWithContext(context.Background(), types.ConfigDetails{WorkingDir: "/work", Environment: env,
-			ConfigFiles: []types.ConfigFile{{Filename: "/work/compose.yaml", Content: []byte(doc)}}}, func(o *loader.Options) {
+		// where the model comes from: 0/1 a document in memory (1: the services' environment is not resolved - the secrets'
+		// values still are); 2: an included project whose own .env defines the variables (the parent environment does not)
+		variant := 0
+		if hasEnv {
+			variant = n % 3
+		}
+		cd := types.ConfigDetails{WorkingDir: "/work", Environment: env, ConfigFiles: []types.ConfigFile{{Filename: "/work/compose.yaml", Content: []byte(doc)}}}
+		if variant == 2 {
+			dir := filepath.Join(c.Work, fmt.Sprintf("inc%d", n))
+			_ = os.MkdirAll(filepath.Join(dir, "sub"), 0o755)
+			defer os.RemoveAll(dir)
+			var dotenv strings.Builder
+			for k, v := range env {
+				esc := strings.NewReplacer("\\", "\\\\", "\"", "\\\"", "\n", "\\n", "$", "\\$").Replace(v)
+				fmt.Fprintf(&dotenv, "%s=\"%s\"\n", k, esc)
+			}
+			{
+				_ = os.WriteFile(filepath.Join(dir, "sub", ".env"), []byte(dotenv.String()), 0o644)
+				_ = os.WriteFile(filepath.Join(dir, "sub", "compose.yaml"), []byte(doc), 0o644)
+				cd = types.ConfigDetails{WorkingDir: dir, Environment: types.Mapping{}, ConfigFiles: []types.ConfigFile{{Filename: filepath.Join(dir, "compose.yaml"),
+					Content: []byte("include:\n  - sub/compose.yaml\nservices:\n  parent: {image: img}\n")}}}
+			}
+		}
+		key += fmt.Sprintf("|variant%d", variant)
+		p, err := loader.LoadWithContext(context.Background(), cd, func(o *loader.Options) {
 			o.SetProjectName("proj", true)
+			o.SkipResolveEnvironment = variant == 1
 			if n%2 == 0 { // every other scenario with a caller-registered extension type (extensions are then bound to Go types)
 				o.KnownExtensions = map[string]any{"x-known": c20Known{}}
 			}
